@@ -478,7 +478,7 @@ func (s *wireServer) step(c *wireClient, st wireStep) (to, reply string) {
 			m, ok := c.waitMsg(16+6, 60*time.Second)
 			fmt.Fprintf(os.Stderr, "timed-request: answered=%v size=%d after %v\n", ok, m.Size, time.Since(t0))
 		case st.In == "deaf-requests":
-			// ask for the largest momentum the node has, 128 times per request, several requests; stop reading; keep pinging.
+			// ask for 128 copies of the largest momentum the node has (one message of almost 10 MiB); stop reading; keep pinging.
 			// The node cannot write its replies; its write time-out (20 s) must end the session. Seen from here: a ping fails.
 			if tc, ok := c.tap.Conn.(*net.TCPConn); ok {
 				tc.SetReadBuffer(4096)
@@ -492,12 +492,10 @@ func (s *wireServer) step(c *wireClient, st wireStep) (to, reply string) {
 			for i := range hashes {
 				hashes[i] = s.fat
 			}
-			for i := 0; i < 6; i++ {
-				c.tap.Conn.SetWriteDeadline(time.Now().Add(3 * time.Second))
-				if err := p2p.Send(c.rw, 16+5, hashes); err != nil {
-					break
-				}
-			}
+			// ONE request: a second one would wait in the session's read loop for the handler, and the keep-alives behind it
+			// would not be read at all
+			c.tap.Conn.SetWriteDeadline(time.Now().Add(3 * time.Second))
+			p2p.Send(c.rw, 16+5, hashes)
 			deadline := time.Now().Add(50 * time.Second)
 			for time.Now().Before(deadline) {
 				c.tap.Conn.SetWriteDeadline(time.Now().Add(3 * time.Second))
@@ -1012,7 +1010,7 @@ func wireCheck(run *core.Run) {
 	// the stated limit: 10 MiB per message (1 MiB of slack for whatever else the process does meanwhile)
 	for in, v := range maxAlloc {
 		if in == "deaf-requests" {
-			continue // six requests, each answered with a message of almost the limit: not one message
+			continue // the answer is a message of almost the limit, encoded and framed: several buffers of that size
 		}
 		if v > 11*1024*1024 {
 			run.Report("C15:allocates-more-than-the-message-limit-on-"+in, fmt.Sprintf("while handling input %s the node allocates %d bytes; the protocol's stated limit is 10 MiB per message", in, v),
